@@ -13,19 +13,20 @@ Theorem c03_conservation : forall t ops, conserved (fold_left qstep ops (qinit t
 Proof. exact conservation. Qed.
 Print Assumptions c03_conservation.
 
-(* never earlier, later or in another frame: whatever is emitted at a tick has that tick's frame number; whatever is reported stale
-   has a smaller frame number (numeric comparison, as in the code: see the recorded finding about the hyperframe wrap) *)
+(* never earlier, later or in another frame: whatever is emitted at a tick has that tick's frame number (modulo the hyperframe:
+   is_due); whatever is reported stale lies behind the clock (is_behind: reaching its frame would take half a hyperframe or more) -
+   frame numbers are compared modulo 2715648, so bursts queued across the wrap 2715647 -> 0 are sent in their own frame *)
 Theorem c03_on_time : forall t ops, timely (fold_left qstep ops (qinit t)).
 Proof. exact timeliness. Qed.
 Print Assumptions c03_on_time.
 
 (* one tick of a running transceiver: exactly the queued bursts of that frame are emitted (all of them, once, in queue order),
-   the older ones are reported, exactly the later ones stay queued *)
+   the ones behind the clock are reported, exactly the ones ahead stay queued *)
 Theorem c03_tick_exact : forall h fn, x_run (h_trx h) = true ->
   let h' := qstep h (QTick fn) in
-  h_emitted h' = h_emitted h ++ map (fun m => (fn, m)) (filter (fun m => oz (t_fn m) =? fn) (x_q (h_trx h)))
-  /\ h_stale h' = h_stale h ++ map (fun m => (fn, m)) (filter (fun m => oz (t_fn m) <? fn) (x_q (h_trx h)))
-  /\ x_q (h_trx h') = filter (fun m => fn <? oz (t_fn m)) (x_q (h_trx h)).
+  h_emitted h' = h_emitted h ++ map (fun m => (fn, m)) (filter (is_due fn) (x_q (h_trx h)))
+  /\ h_stale h' = h_stale h ++ map (fun m => (fn, m)) (filter (is_behind fn) (x_q (h_trx h)))
+  /\ x_q (h_trx h') = filter (is_ahead fn) (x_q (h_trx h)).
 Proof. exact tick_exact. Qed.
 Print Assumptions c03_tick_exact.
 
@@ -49,7 +50,7 @@ Theorem c03_world_tick : forall w fn draws, wf_world w -> 0 <= fn ->
   let '(w', _, _) := tick w fn draws in
   forall k t, nth_error (w_trx w) k = Some t ->
     exists t', nth_error (w_trx w') k = Some t' /\
-      x_q t' = (if x_run t then filter (fun m => fn <? oz (t_fn m)) (x_q t) else x_q t)
+      x_q t' = (if x_run t then filter (is_ahead fn) (x_q t) else x_q t)
       /\ x_run t' = x_run t /\ x_ver t' = x_ver t /\ x_rx t' = x_rx t /\ x_tx t' = x_tx t /\ x_fh t' = x_fh t /\ x_cfg t' = x_cfg t.
 Proof. exact tick_queues. Qed.
 Print Assumptions c03_world_tick.
@@ -63,22 +64,11 @@ Print Assumptions c03_interleavings_conserve.
 
 Theorem c03_interleavings_on_time : forall f op sched r fh q,
   let s := run_all f op sched (init r fh q) in
-  Forall (fun m => snd m = f) (emitted s) /\ Forall (fun m => snd m < f) (stale s).
+  Forall (due f) (emitted s) /\ Forall (behind f) (stale s).
 Proof. exact interleavings_on_time. Qed.
 Print Assumptions c03_interleavings_on_time.
 
-(* the clock thread survives every schedule unless hopping is configured AND the racing operation is POWEROFF *)
-Theorem c03_no_crash_schedule : forall f op sched r q,
-  match tpc (run_all f op sched (init r false q)) with TCrash _ => False | _ => True end.
-Proof. exact no_crash_without_hopping. Qed.
+(* the clock thread survives every schedule - fixed tuning or hopping, whatever the racing operation (the hopping parameters are read once) *)
+Theorem c03_no_crash_schedule : forall f op sched r fh q, Alive (run_all f op sched (init r fh q)).
+Proof. exact no_crash_any_schedule. Qed.
 Print Assumptions c03_no_crash_schedule.
-
-Theorem c03_no_crash_schedule_hopping : forall f op sched r q, op <> PowerOff ->
-  match tpc (run_all f op sched (init r true q)) with TCrash _ => False | _ => True end.
-Proof. exact no_crash_without_poweroff. Qed.
-Print Assumptions c03_no_crash_schedule_hopping.
-
-(* REFUTED for the remaining case (recorded finding c03-fh-race): get_tx_freq reads self.fh twice; POWEROFF in between kills the clock thread *)
-Theorem c03_fh_race_refuted : exists sched, tpc (run_all 10 PowerOff sched (init true true [(1, 10)])) = TCrash [(1, 10)].
-Proof. exact fh_race_refuted. Qed.
-Print Assumptions c03_fh_race_refuted.
